@@ -505,10 +505,50 @@ func (s *Store) Extract(a *Term, hi, lo int) *Term {
 		ilo := int(a.val & 0xff)
 		return s.Extract(a.args[0], hi+ilo, lo+ilo)
 	}
+	// slice of an extension that lies entirely inside the inner term
+	if (a.op == OpZExt || a.op == OpSExt) && hi < a.args[0].w {
+		return s.Extract(a.args[0], hi, lo)
+	}
+	// slice of a zero extension entirely above the inner term
+	if a.op == OpZExt && lo >= a.args[0].w {
+		return s.Const(w, 0)
+	}
+	// slice of a shift by a constant is a slice of the operand
+	if (a.op == OpLShr || a.op == OpAShr) && a.args[1].op == OpConst {
+		c := int(a.args[1].val)
+		if c < a.w && hi+c < a.w {
+			return s.Extract(a.args[0], hi+c, lo+c)
+		}
+	}
+	if a.op == OpShl && a.args[1].op == OpConst {
+		c := int(a.args[1].val)
+		if c < a.w && lo >= c {
+			return s.Extract(a.args[0], hi-c, lo-c)
+		}
+		if c < a.w && hi < c {
+			return s.Const(w, 0)
+		}
+	}
+	if a.op == OpConcat {
+		lw := a.args[1].w
+		if hi < lw {
+			return s.Extract(a.args[1], hi, lo)
+		}
+		if lo >= lw {
+			return s.Extract(a.args[0], hi-lw, lo-lw)
+		}
+	}
 	// truncation distributes over add/sub/mul/and/or/xor when lo == 0:
 	// keeps terms small for byte extraction of sums
-	if lo == 0 && (a.op == OpAnd || a.op == OpOr || a.op == OpXor) {
+	if a.op == OpAnd || a.op == OpOr || a.op == OpXor {
+		return s.Bin(a.op, s.Extract(a.args[0], hi, lo), s.Extract(a.args[1], hi, lo))
+	}
+	// low slice of add/sub/mul/neg depends only on the low bits of the operands
+	if lo == 0 && (a.op == OpAdd || a.op == OpSub || a.op == OpMul) && w < a.w {
 		return s.Bin(a.op, s.Extract(a.args[0], hi, 0), s.Extract(a.args[1], hi, 0))
+	}
+	if lo == 0 && a.op == OpNeg && w < a.w {
+		return s.Un(OpNeg, s.Extract(a.args[0], hi, 0))
 	}
 	return s.mk(OpExtr, w, uint64(hi)<<8|uint64(lo), "", []*Term{a})
 }
